@@ -1,4 +1,182 @@
-import DSModel.Hll.Union
+/-
+C04 — HLL union equals the sketch of the concatenated streams at reduced precision.
+
+ONLY property theorems and their non-vacuity examples live here (helper lemmas: Lemmas/HllUnion.lean).
+Model: DSModel/Hll/Union.lean (L1 model of hll_union as coded, tied to HllUnion-internal.hpp by `./check C04`).
+A history is a list of `UOp`s (update with an lvalue / rvalue sketch described by its own configuration and coupon
+stream, raw coupon, estimate call, reset) applied to a fresh union of `lgMaxK`.
+
+The CURRENT code violates the full-strength statements (two defects, rediscovered by the check and replayed on the real
+headers every run, see known_findings.json / proposed_fixes/C04-*):
+  D1  a down-sampled gadget still has cur_min = 0, num_at_cur_min = k, reports isEmpty and is replaced by the next input;
+  D14 reset() keeps the gadget's reduced lg_k.
+So the file carries `…_full : Prop` (the statement), `…_full_false` (kernel-checked refutation of it for the model of the
+current code, with the concrete witness) and `…_partial` (what is proved).
+-/
+import DSProofs.Lemmas.HllUnion
+import DSProofs.Props.C03
 namespace DS.Hll
-theorem placeholder_c04 : True := trivial
+
+/-- the tunables of the code -/
+def uP : Params := {}
+
+/-! ## Full-strength statements -/
+
+/-- result content = that of ONE sketch of the result's lg_k that saw every item of every input (nothing lost, nothing extra):
+coupons exact in LIST/SET mode, every register the per-slot maximum in HLL mode. -/
+def union_content_full : Prop :=
+  ∀ (lgMaxK : Nat) (ops : List UOp) (tt : TType),
+    let r : St Unit := unionResult uP (uRun uP (newUnion uP lgMaxK) ops) tt
+    (r.mode = .hll → ∀ slot, slot < 2^r.lgK → IsMaxAt uP r.lgK (fun c => c ∈ offered ops) slot (r.regs.getD slot 0)) ∧
+    (r.mode ≠ .hll → ∀ c, c ∈ r.items ↔ (c ∈ offered ops ∧ c ≠ 0))
+
+/-- result lg_k = min(lg_max_k, lg_k of every (non-empty) HLL-mode input since the last reset) -/
+def union_lgk_full : Prop :=
+  ∀ (lgMaxK : Nat) (ops : List UOp) (tt : TType),
+    (unionResult uP (uRun uP (newUnion uP lgMaxK : Un Unit) ops) tt).lgK = expectedLgK uP lgMaxK ops
+
+/-- the result does not depend on the order of presentation -/
+def union_perm_invariant_full : Prop :=
+  ∀ (lgMaxK : Nat) (ops ops' : List UOp) (tt : TType), ops.Perm ops' →
+    (∀ o ∈ ops, match o with | .merge _ _ => True | .coupon _ => True | _ => False) →
+    let r : St Unit := unionResult uP (uRun uP (newUnion uP lgMaxK) ops) tt
+    let r' : St Unit := unionResult uP (uRun uP (newUnion uP lgMaxK) ops') tt
+    r.lgK = r'.lgK ∧ r.mode = r'.mode ∧ r.regs = r'.regs
+
+/-- interleaved estimate calls do not change later results -/
+def union_estimate_pure_full : Prop :=
+  ∀ (lgMaxK : Nat) (ops₁ ops₂ : List UOp) (tt : TType),
+    let r : St Unit := unionResult uP (uRun uP (newUnion uP lgMaxK) (ops₁ ++ ops₂)) tt
+    let r' : St Unit := unionResult uP (uRun uP (newUnion uP lgMaxK) (ops₁ ++ [.touch] ++ ops₂)) tt
+    r.lgK = r'.lgK ∧ r.mode = r'.mode ∧ r.regs = r'.regs
+
+/-- reset ≙ a fresh union of lg_max_k -/
+def union_reset_full : Prop :=
+  ∀ (lgMaxK : Nat) (ops : List UOp),
+    (uRun uP (newUnion uP lgMaxK : Un Unit) (ops ++ [.reset])).gadget.lgK = lgMaxK
+
+/-! ## Refutations on the model of the current code (witnesses replayed by corpus/regress/C04/*.txt) -/
+
+/-- A: HLL mode (start-full), lg_k 5, one item in slot 3 with value 2 -/
+def wA : SkDesc := { lgK := 5, tt := .h8, sf := true, cs := [cPair uP 3 2] }
+/-- B: HLL mode (start-full), lg_k 4, one item in slot 1 with value 1 -/
+def wB : SkDesc := { lgK := 4, tt := .h8, sf := true, cs := [cPair uP 1 1] }
+/-- C: HLL mode (start-full), lg_k 6 -/
+def wC : SkDesc := { lgK := 6, tt := .h8, sf := true, cs := [cPair uP 2 3] }
+
+/-- D1: union(4) ← A ← B loses A (slot 3 should hold 2, holds 0). -/
+theorem union_content_full_false : ¬ union_content_full := by
+  intro h
+  have h1 := (h 4 [.merge wA false, .merge wB false] .h8).1 (by decide +kernel) 3 (by decide +kernel)
+  have h2 := h1.1 (cPair uP 3 2) (by decide +kernel) (by decide +kernel)
+  revert h2
+  decide +kernel
+
+/-- D1: A, B and B, A give different registers. -/
+theorem union_perm_invariant_full_false : ¬ union_perm_invariant_full := by
+  intro h
+  have h1 := h 4 [.merge wA false, .merge wB false] [.merge wB false, .merge wA false] .h8
+    (List.Perm.swap _ _ _) (by intro o ho; simp at ho; rcases ho with rfl | rfl <;> trivial)
+  revert h1
+  decide +kernel
+
+/-- D1: an estimate call between the two updates changes the result. -/
+theorem union_estimate_pure_full_false : ¬ union_estimate_pure_full := by
+  intro h
+  have h1 := h 4 [.merge wA false] [.merge wB false] .h8
+  revert h1
+  decide +kernel
+
+/-- D1: union(6) ← C (lg_k 6) ← B (lg_k 4: gadget down-sampled to 4) ← C again: the gadget is replaced and is back at lg_k 6. -/
+theorem union_lgk_full_false : ¬ union_lgk_full := by
+  intro h
+  have h1 := h 6 [.merge wC false, .merge wB false, .merge wC false] .h8
+  revert h1
+  decide +kernel
+
+/-- D14: union(6) ← B (lg_k 4), reset(): the union restarts at lg_k 4. -/
+theorem union_reset_full_false : ¬ union_reset_full := by
+  intro h
+  have h1 := h 6 [.merge wB false]
+  revert h1
+  decide +kernel
+
+/-! ## What is proved (for every tunable set, numeric instance, lg_k, history …) -/
+
+variable {ν : Type} [HNum ν]
+
+/-- Mechanism of `mergeHll` (same-k path and down-sampling path alike): if the gadget's registers are the per-slot maxima of
+the coupon set `M` at lg_k and the source's registers the per-slot maxima of `N` at a precision ≥ lg_k, then after the merge
+they are the per-slot maxima of `M ∪ N` at lg_k — nothing lost, nothing invented (`slot & mask`, `max`). -/
+theorem union_merge_content (p : Params) (dst src : St ν) (M N : Nat → Prop)
+    (hle : dst.lgK ≤ src.lgK) (hd : dst.regs.size = 2^dst.lgK) (hs : src.regs.size = 2^src.lgK)
+    (hM : ∀ j, j < 2^dst.lgK → IsMaxAt p dst.lgK M j (dst.regs.getD j 0))
+    (hN : ∀ i, i < 2^src.lgK → IsMaxAt p src.lgK N i (src.regs.getD i 0)) :
+    (mergeHll dst src).lgK = dst.lgK ∧ (mergeHll dst src).regs.size = 2^dst.lgK ∧
+    ∀ j, j < 2^dst.lgK → IsMaxAt p dst.lgK (fun c => M c ∨ N c) j ((mergeHll dst src).regs.getD j 0) :=
+  ⟨rfl, (mergeRegs_spec dst.regs dst.lgK src.regs hd).1, mergeRegs_content p hle hd hs hM hN⟩
+
+/-- `copy_or_downsample` to a smaller lg_k keeps exactly the source's content, folded. -/
+theorem union_downsample_content (p : Params) (src : St ν) (tgt : Nat) (N : Nat → Prop)
+    (hlt : tgt < src.lgK) (hs : src.regs.size = 2^src.lgK)
+    (hN : ∀ i, i < 2^src.lgK → IsMaxAt p src.lgK N i (src.regs.getD i 0)) :
+    (copyOrDownsample p src tgt).lgK = tgt ∧ (copyOrDownsample p src tgt).mode = .hll ∧
+    ∀ j, j < 2^tgt → IsMaxAt p tgt N j ((copyOrDownsample p src tgt).regs.getD j 0) := by
+  unfold copyOrDownsample
+  rw [if_neg (by omega)]
+  refine ⟨rfl, rfl, fun j hj => ?_⟩
+  have h := mergeRegs_content p (M := fun _ => False) (N := N) (dst := (newHll tgt .h8 false : St ν).regs)
+    (Nat.le_of_lt hlt) (by simp [newHll]) hs (by
+      intro j hj
+      refine ⟨fun c hc => absurd hc (by simp), Or.inl ?_⟩
+      simp [newHll, Array.getD_eq_getD_getElem?, hj]) hN j hj
+  exact IsMaxAt.congr (by simp) h
+
+/-- `get_result` is pure and type-independent: it does not touch the union, every target type yields the same lg_k, mode and
+registers, and so does a result taken after an estimate call (which only rebuilds the derived counters). -/
+theorem union_get_result_pure (p : Params) (u : Un ν) (tt₁ tt₂ : TType)
+    (hsz : u.gadget.mode = .hll → u.gadget.regs.size = 2^u.gadget.lgK) (hk : u.gadget.lgK ≤ p.keyBits) :
+    (unionResult p u tt₁).lgK = (unionResult p u tt₂).lgK ∧ (unionResult p u tt₁).mode = (unionResult p u tt₂).mode ∧
+    (unionResult p u tt₁).regs = (unionResult p u tt₂).regs ∧
+    (unionResult p (unionTouch u) tt₁).regs = (unionResult p u tt₁).regs ∧
+    (unionResult p (unionTouch u) tt₁).lgK = (unionResult p u tt₁).lgK := by
+  have a := copyAs_preserves p u.gadget tt₁ hsz hk
+  have b := copyAs_preserves p u.gadget tt₂ hsz hk
+  have hcr : (checkRebuild u.gadget).regs = u.gadget.regs ∧ (checkRebuild u.gadget).lgK = u.gadget.lgK ∧
+      (checkRebuild u.gadget).mode = u.gadget.mode := by
+    unfold checkRebuild
+    by_cases hc : u.gadget.mode = .hll ∧ u.gadget.rebuild = true
+    · rw [if_pos hc]; exact ⟨rfl, rfl, rfl⟩
+    · rw [if_neg hc]; exact ⟨rfl, rfl, rfl⟩
+  have c := copyAs_preserves p (checkRebuild u.gadget) tt₁ (by rw [hcr.2.2, hcr.1, hcr.2.1]; exact hsz) (by rw [hcr.2.1]; exact hk)
+  unfold unionResult unionTouch
+  exact ⟨a.2.1.trans b.2.1.symm, a.1.trans b.1.symm, a.2.2.2.1.trans b.2.2.2.1.symm,
+    (c.2.2.2.1.trans hcr.1).trans a.2.2.2.1.symm, (c.2.1.trans hcr.2.1).trans a.2.1.symm⟩
+
+/-- `reset()` gives back a fresh union of lg_max_k — PARTIAL: only if the gadget's lg_k has not been reduced
+(missing for the full statement: the code re-creates the gadget at its current lg_k, D14). -/
+theorem union_reset_partial (p : Params) (u : Un ν) (hk : u.gadget.lgK = u.lgMaxK) (htt : u.gadget.tt = .h8)
+    (hsf : u.gadget.startFull = false) : unionReset p u = newUnion p u.lgMaxK := by
+  unfold unionReset newUnion reset newSketch
+  simp [hk, htt, hsf]
+
+/-! Non-vacuity: concrete sketches meet the hypotheses (via C03's `hll_regs_max`), and a concrete union behaves as stated. -/
+def exDst : St Unit := run uP (newSketch uP 4 .h8 true) [cPair uP 1 1, cPair uP 5 3]
+def exSrc : St Unit := run uP (newSketch uP 6 .h4 true) [cPair uP 3 2, cPair uP 21 4, cPair uP 37 6]
+example : exDst.lgK ≤ exSrc.lgK ∧ exDst.regs.size = 2^exDst.lgK ∧ exSrc.regs.size = 2^exSrc.lgK := by decide +kernel
+example : ∀ j, j < 2^4 → IsMaxAt uP 4 (fun c => c ∈ [cPair uP 1 1, cPair uP 5 3]) j (exDst.regs.getD j 0) :=
+  (hll_regs_max uP (by decide) 4 .h8 true [cPair uP 1 1, cPair uP 5 3] (by decide +kernel)).2
+example : ∀ i, i < 2^6 → IsMaxAt uP 6 (fun c => c ∈ [cPair uP 3 2, cPair uP 21 4, cPair uP 37 6]) i (exSrc.regs.getD i 0) :=
+  (hll_regs_max uP (by decide) 6 .h4 true [cPair uP 3 2, cPair uP 21 4, cPair uP 37 6] (by decide +kernel)).2
+/-- slots 21 and 37 of the lg_k 6 source both fold onto slot 5 of the lg_k 4 gadget: max(3, 4, 6) = 6 -/
+example : (mergeHll exDst exSrc).regs.getD 5 0 = 6 ∧ (mergeHll exDst exSrc).regs.getD 3 0 = 2 ∧
+    (mergeHll exDst exSrc).regs.getD 1 0 = 1 := by decide +kernel
+example : (copyOrDownsample uP exSrc 4).lgK = 4 ∧ (copyOrDownsample uP exSrc 4).regs.getD 5 0 = 6 := by decide +kernel
+/-- a healthy history (no precision reduction): union(6) ← C, raw coupon, estimate, result as HLL_4 -/
+def wD : SkDesc := { lgK := 6, tt := .h6, sf := false, cs := (List.range 9).map fun i => cPair uP (2 + 3 * i) (3 + i) }
+def exU : Un Unit := uRun uP (newUnion uP 6) [.merge wD false, .coupon (cPair uP 9 7), .touch]
+example : exU.gadget.lgK = exU.lgMaxK ∧ exU.gadget.tt = .h8 ∧ exU.gadget.startFull = false ∧
+    (exU.gadget.mode = .hll → exU.gadget.regs.size = 2^exU.gadget.lgK) ∧ exU.gadget.lgK ≤ uP.keyBits := by decide +kernel
+example : (unionResult uP exU .h4).regs.getD 9 0 = 7 ∧ (unionResult uP exU .h4).regs.getD 2 0 = 3 := by decide +kernel
+
 end DS.Hll
